@@ -319,8 +319,14 @@ func visitInstr(fr *frame, instr ssa.Instruction) continuation {
 		}
 
 	case *ssa.If:
+		cv := fr.get(instr.Cond)
+		if c0, isSym := cv.(sv); isSym {
+			if fr.ifChain(instr, c0) {
+				return kJump
+			}
+		}
 		succ := 1
-		if fr.decideV(fr.get(instr.Cond)) {
+		if fr.decideV(cv) {
 			succ = 0
 		}
 		fr.prevBlock, fr.block = fr.block, fr.block.Succs[succ]
@@ -751,4 +757,161 @@ func doRecover(caller *frame) value {
 		}
 	}
 	return iface{}
+}
+
+// pureCond reports whether block b only computes side-effect-free scalar
+// values and ends in an If: it can be evaluated speculatively.
+var pureCondCache = map[*ssa.BasicBlock]bool{}
+
+func pureCond(b *ssa.BasicBlock) bool {
+	if r, ok := pureCondCache[b]; ok {
+		return r
+	}
+	ok := len(b.Preds) == 1 && len(b.Instrs) >= 1 && len(b.Instrs) <= 6
+	if ok {
+		if _, isIf := b.Instrs[len(b.Instrs)-1].(*ssa.If); !isIf {
+			ok = false
+		}
+	}
+	if ok {
+		for _, in := range b.Instrs[:len(b.Instrs)-1] {
+			switch x := in.(type) {
+			case *ssa.BinOp:
+				switch x.Op {
+				case token.QUO, token.REM, token.SHL, token.SHR:
+					ok = false
+				}
+				if _, isB := x.X.Type().Underlying().(*types.Basic); !isB {
+					ok = false
+				}
+			case *ssa.UnOp:
+				if x.Op == token.MUL || x.Op == token.ARROW {
+					ok = false
+				}
+			case *ssa.Convert:
+				if _, isB := x.Type().Underlying().(*types.Basic); !isB {
+					ok = false
+				}
+				if _, isB := x.X.Type().Underlying().(*types.Basic); !isB {
+					ok = false
+				}
+				if basicKind(x.Type()) == types.String || basicKind(x.X.Type()) == types.String {
+					ok = false
+				}
+			case *ssa.DebugRef:
+			default:
+				ok = false
+			}
+		}
+	}
+	pureCondCache[b] = ok
+	return ok
+}
+
+func samePhiEdges(target *ssa.BasicBlock, preds []*ssa.BasicBlock) bool {
+	for _, in := range target.Instrs {
+		phi, ok := in.(*ssa.Phi)
+		if !ok {
+			break
+		}
+		var first ssa.Value
+		for _, p := range preds {
+			k := slices.Index(target.Preds, p)
+			if k < 0 {
+				return false
+			}
+			e := phi.Edges[k]
+			if first == nil {
+				first = e
+				continue
+			}
+			if e == first {
+				continue
+			}
+			c1, ok1 := first.(*ssa.Const)
+			c2, ok2 := e.(*ssa.Const)
+			if !ok1 || !ok2 || c1.Value == nil || c2.Value == nil || c1.Value.ExactString() != c2.Value.ExactString() || !types.Identical(c1.Type(), c2.Type()) {
+				return false
+			}
+		}
+	}
+	return true
+}
+
+// ifChain merges a chain of conditional jumps with a common target (the shape
+// of `a || b || c`, `a && b && c` and of switch cases with several values) into
+// a single decision on the disjunction / conjunction. It returns false when the
+// shape does not apply.
+func (fr *frame) ifChain(first *ssa.If, c0 sv) bool {
+	b0 := fr.block
+	for _, orMode := range []bool{true, false} {
+		common, next := 0, 1 // OR: common true target
+		if !orMode {
+			common, next = 1, 0
+		}
+		target := b0.Succs[common]
+		chain := []*ssa.BasicBlock{b0}
+		conds := []*sym.Term{c0.T}
+		cur := b0.Succs[next]
+		for pureCond(cur) && cur.Succs[common] == target && cur != b0 && len(chain) < 80 {
+			// speculative evaluation of the block's value instructions
+			ok := true
+			for _, in := range cur.Instrs[:len(cur.Instrs)-1] {
+				if _, isDbg := in.(*ssa.DebugRef); isDbg {
+					continue
+				}
+				func() {
+					defer func() {
+						if p := recover(); p != nil {
+							if _, isEnd := p.(pathEnd); isEnd {
+								ok = false
+								return
+							}
+							ok = false
+						}
+					}()
+					visitInstr(fr, in)
+				}()
+				if !ok {
+					break
+				}
+			}
+			if !ok {
+				break
+			}
+			cv := fr.get(cur.Instrs[len(cur.Instrs)-1].(*ssa.If).Cond)
+			var t *sym.Term
+			switch c := cv.(type) {
+			case bool:
+				t = sym.BoolConst(c)
+			case sv:
+				t = c.T
+			}
+			chain = append(chain, cur)
+			conds = append(conds, t)
+			cur = cur.Succs[next]
+		}
+		if len(chain) < 2 {
+			continue
+		}
+		if !samePhiEdges(target, chain) {
+			continue
+		}
+		last := chain[len(chain)-1]
+		var d *sym.Term
+		if orMode {
+			d = sym.Or(conds...)
+		} else {
+			d = sym.And(conds...)
+		}
+		r := fr.decide(d)
+		if r == orMode {
+			// common target reached (some disjunct true / some conjunct false)
+			fr.prevBlock, fr.block = b0, target
+		} else {
+			fr.prevBlock, fr.block = last, last.Succs[next]
+		}
+		return true
+	}
+	return false
 }
